@@ -121,8 +121,21 @@ def run_tlc(module, cfg, workers=16, coverage=False, simulate=None, depth=None, 
         proc = subprocess.Popen(cmd, cwd=tmp, stdout=subprocess.PIPE, stderr=subprocess.STDOUT,
                                 text=True, bufsize=1 << 20, env=penv)
         other = []
+        pending = None      # TLC pretty-prints long tuples over several lines: join them before handing them on
         try:
             for line in proc.stdout:
+                if pending is not None:
+                    pending += " " + line.strip()
+                    if line.rstrip().endswith(">>"):
+                        joined = re.sub(r"^<< ", "<<", pending)
+                        joined = re.sub(r" >>$", ">>", joined)
+                        pending = None
+                        if line_sink is not None:
+                            line_sink(joined)
+                    continue
+                if line_sink is not None and line.startswith("<< ") and not line.rstrip().endswith(">>"):
+                    pending = line.strip()
+                    continue
                 if line.startswith(_VEC_PREFIX):
                     try:
                         v = parse_vec_line(line.rstrip("\n"))
